@@ -13,7 +13,7 @@ Out  == IOEnv.KV_OUT
 Tier == IOEnv.KV_TIER
 SeedN == atoi(IOEnv.KV_SEED)
 Full == Tier = "thorough"
-Depth == IF Full THEN 4 ELSE 3
+Depth == 3
 
 Names == {"a", "@a", "@@a", "@", "default", "@B", "b", "@ä b", "\"q\"", "@x'y", "a@", "@a@"}
 C(op, file, name) == [op |-> op, file |-> file, name |-> name]
@@ -23,7 +23,7 @@ Muts == {C("set", Files[i], n) : i \in 1..Len(Files), n \in Names}
         \cup {C("clear", "", "")}
 (* quick tier: a seed-rotated third of the mutations at depth >= 2 *)
 H(c) == Len(c.file) + 3 * Len(c.name) + (IF c.op = "unset" THEN 1 ELSE 0)
-Allowed(c, k) == k = 0 \/ (H(c) + SeedN + k) % (IF Full THEN 2 ELSE 12) = 0 \/ c.op = "clear"
+Allowed(c, k) == k = 0 \/ (H(c) + SeedN + k) % (IF Full THEN 3 ELSE 12) = 0 \/ c.op = "clear"
 
 Observers(d) == <<C("list", "", "")>>
                 \o [i \in 1..2 |-> C("info", "", <<"@a", "default">>[i])]
